@@ -25,6 +25,17 @@ fn case(m: usize, a: &[u64], b: &[u64]) -> Option<(String, String)> {
     if m1.merge(&sb).is_err() { return Some(("merge refused equal parameters".into(), "Ok".into())); }
     if m1.get_signature() != su.get_signature() { return Some((format!("merge(A,B) = {:?}", m1.get_signature()), format!("sketch(A u B) = {:?}", su.get_signature()))); }
     for i in 0..m { if m1.get_signature()[i] != sa.get_signature()[i].max(sb.get_signature()[i]) { return Some((format!("position {i}: {}", m1.get_signature()[i]), "max of the two registers".into())); } }
+    // associativity through a merge-only accumulator: B.merge(empty.merge(A)) == sketch(A u B)
+    let mut acc = SS::new(p, bh());
+    acc.merge(&sa).unwrap();
+    if acc.get_signature() != sa.get_signature() { return Some(("empty.merge(A) != sketch(A)".into(), "equal".into())); }
+    let mut m3 = mk(p, b);
+    m3.merge(&acc).unwrap();
+    if m3.get_signature() != su.get_signature() { return Some((format!("B.merge(empty.merge(A)) = {:?}", &m3.get_signature()[..m.min(8)]), format!("sketch(A u B) = {:?}", &su.get_signature()[..m.min(8)]))); }
+    let mut acc2 = SS::new(p, bh());
+    acc2.merge(&sb).unwrap();
+    acc2.merge(&sa).unwrap();
+    if acc2.get_signature() != su.get_signature() { return Some(("(empty.merge(B)).merge(A) != sketch(A u B)".into(), "equal".into())); }
     // commutative, idempotent, continue streaming after merge
     let mut m2 = mk(p, b);
     m2.merge(&sa).unwrap();
